@@ -44,27 +44,28 @@ type Env struct {
 	Plan  *Plan
 	start time.Time
 
-	mu       HMutex
-	events   []Event
-	viol     []Violation
-	stats    Stats
-	siteHits map[string]int
-	fired    []StallPoint
-	explicit map[string]int64
-	tickets  map[string]int64
-	siteOn   map[string]bool
-	stallOff bool
-	keepHist bool
-	lastStal int64 // fake time of the last stall end
-	lastFlt  int64 // fake time of the last fault fired
-	onEnd    []func()
-	tasks    sync.WaitGroup
-	pending  []string // op invocations not yet returned ("" = returned), by id-1
-	opSeq    int
-	yieldSeq int // race build: the global yield counter that stands in for per-site hit counts
-	shape    []string
-	Sample   any
-	nontriv  bool
+	mu          HMutex
+	events      []Event
+	viol        []Violation
+	stats       Stats
+	siteHits    map[string]int
+	fired       []StallPoint
+	explicit    map[string]int64
+	tickets     map[string]int64
+	oneShotSeen int
+	siteOn      map[string]bool
+	stallOff    bool
+	keepHist    bool
+	lastStal    int64 // fake time of the last stall end
+	lastFlt     int64 // fake time of the last fault fired
+	onEnd       []func()
+	tasks       sync.WaitGroup
+	pending     []string // op invocations not yet returned ("" = returned), by id-1
+	opSeq       int
+	yieldSeq    int // race build: the global yield counter that stands in for per-site hit counts
+	shape       []string
+	Sample      any
+	nontriv     bool
 }
 
 var (
@@ -351,7 +352,15 @@ func (e *Env) yield(op deadlock.Op, lock unsafe.Pointer, pc uintptr) {
 		if sc.UseExplicit {
 			ns = e.explicit[fmt.Sprintf("%s#%d", site, n)]
 		} else {
-			if t, ok := e.tickets[fmt.Sprintf("%s#%d", site, n)]; ok {
+			if sc.OneShot.Ns > 0 && strings.HasPrefix(site, sc.OneShot.Prefix) {
+				if e.oneShotSeen == sc.OneShot.Nth {
+					ns = sc.OneShot.Ns
+				}
+				e.oneShotSeen++
+			}
+			if ns > 0 {
+				// the one-shot stall
+			} else if t, ok := e.tickets[fmt.Sprintf("%s#%d", site, n)]; ok {
 				ns = t
 			} else if sc.RatePPM > 0 && e.stats.StallNs < sc.BudgetNs && e.siteEnabled(site) {
 				h := h2(h2(sc.Seed, HashStr(site)), uint64(n))
